@@ -4,15 +4,15 @@
 package world
 
 import (
-	"os"
-	"unsafe"
 	"context"
 	"fmt"
 	"hash/fnv"
 	"net"
+	"os"
 	"sort"
 	"strings"
 	"time"
+	"unsafe"
 
 	"cqlsim/choice"
 	"cqlsim/simnet"
@@ -137,24 +137,24 @@ type World struct {
 	edges      map[uint64]struct{}
 
 	// hooks for scenarios / oracles
-	Workload      func() int     // number of enabled workload operations
-	DoWork        func(i int)    // perform one
-	OnReply       func(*ClientReq, *ClientReply)
-	OnClientEvent func(*Client, *frame.Frame)
-	ResultFor     func(*Attempt) message.Message
-	ReplyMod      func(*Attempt, *frame.Frame)
-	OnAttempt     func(*Attempt)
-	OnStep        func() // online invariants, evaluated after every settle
-	DialPolicy    func(n *Node) simnet.DialKind
-	FaultActs     func() int // number of enabled fault actions (scenario-owned)
-	DoFault       func(i int)
-	ControlConns  []*BackendConn
-	Services      map[string]func(*simnet.PeerEnd) // address -> service run as a sim task per connection
-	DialAttempts  map[string][]time.Duration // every SUT dial (accepted or not), by address
-	HostileUnpreparedID []byte // id of a statement in the proxy's prepared cache (hostile UNPREPARED replies)
-	ClockOn       bool // early clock advances allowed (off during boot and drain)
-	ScriptBeatsUnprepared bool // a scripted outcome is applied even to EXECUTE/BATCH of ids the node does not know (hostile backends, C17)
-	ClockBudget   int  // number of early clock advances left in this run
+	Workload              func() int  // number of enabled workload operations
+	DoWork                func(i int) // perform one
+	OnReply               func(*ClientReq, *ClientReply)
+	OnClientEvent         func(*Client, *frame.Frame)
+	ResultFor             func(*Attempt) message.Message
+	ReplyMod              func(*Attempt, *frame.Frame)
+	OnAttempt             func(*Attempt)
+	OnStep                func() // online invariants, evaluated after every settle
+	DialPolicy            func(n *Node) simnet.DialKind
+	FaultActs             func() int // number of enabled fault actions (scenario-owned)
+	DoFault               func(i int)
+	ControlConns          []*BackendConn
+	Services              map[string]func(*simnet.PeerEnd) // address -> service run as a sim task per connection
+	DialAttempts          map[string][]time.Duration       // every SUT dial (accepted or not), by address
+	HostileUnpreparedID   []byte                           // id of a statement in the proxy's prepared cache (hostile UNPREPARED replies)
+	ClockOn               bool                             // early clock advances allowed (off during boot and drain)
+	ScriptBeatsUnprepared bool                             // a scripted outcome is applied even to EXECUTE/BATCH of ids the node does not know (hostile backends, C17)
+	ClockBudget           int                              // number of early clock advances left in this run
 }
 
 type ProxyInst struct {
@@ -185,10 +185,10 @@ func New(cfg Config, s *simrt.Sched, n *simnet.Net, c *choice.Stream) *World {
 	return w
 }
 
-func (w *World) Now() time.Duration { return time.Since(w.start) }
-func (w *World) nextSeq() uint64    { w.seq++; return w.seq }
-func (w *World) nextConnID() int    { w.connID++; return w.connID }
-func (w *World) Stat(k string)      { w.Stats[k]++ }
+func (w *World) Now() time.Duration    { return time.Since(w.start) }
+func (w *World) nextSeq() uint64       { w.seq++; return w.seq }
+func (w *World) nextConnID() int       { w.connID++; return w.connID }
+func (w *World) Stat(k string)         { w.Stats[k]++ }
 func (w *World) StatN(k string, n int) { w.Stats[k] += n }
 
 func (w *World) Logf(format string, a ...interface{}) {
@@ -938,4 +938,6 @@ func TryEncodeFrame(compression string, frm *frame.Frame) (raw []byte, err error
 }
 
 // DecodeFrame decodes a frame with the reference codec (exported for scenarios).
-func DecodeFrame(compression string, raw []byte) (*frame.Frame, error) { return decodeFrame(compression, raw) }
+func DecodeFrame(compression string, raw []byte) (*frame.Frame, error) {
+	return decodeFrame(compression, raw)
+}
